@@ -152,8 +152,23 @@ def preload():
         __import__("pydcop.distribution." + dm)
 
 
-def run_isolated(fn, case, hard_timeout=150):
-    """fork; the child runs fn(case) and sends its JSON result through a pipe."""
+def run_isolated(fn, case, hard_timeout=150, retries=0):
+    """fork; the child runs fn(case) and sends its JSON result through a pipe.  retries: how many
+    times a run that hit the hard limit or whose child died is repeated (the first failure is
+    kept in the result as 'first_error'); a failure that repeats is reported."""
+    first = None
+    for attempt in range(retries + 1):
+        res = _run_isolated_once(fn, case, hard_timeout)
+        if not (isinstance(res, dict) and res.get("error") in ("HardTimeout", "ChildDied")):
+            break
+        if first is None:
+            first = res["error"]
+    if first is not None and isinstance(res, dict):
+        res["first_error"] = first
+    return res
+
+
+def _run_isolated_once(fn, case, hard_timeout):
     preload()
     r, w = os.pipe()
     pid = os.fork()
